@@ -319,6 +319,7 @@ func (l *Lexer) readHTML() string {
 		if l.ch == '\\' && l.peekChar() == '<' {
 			l.readChar()
 			l.readChar()
+			continue
 		}
 
 		if l.ch == '<' && l.peekChar() == '%' {
